@@ -146,6 +146,8 @@ func main() {
 		os.Exit(cmdUnit(os.Args[2:]))
 	case "check":
 		os.Exit(cmdCheck(os.Args[2:]))
+	case "funcs":
+		os.Exit(cmdFuncs(os.Args[2:]))
 	case "replay":
 		os.Exit(cmdReplay(os.Args[2:]))
 	default:
